@@ -1,0 +1,20 @@
+//go:build verif
+
+// C11 contracts for package extension (comment-only; read by /verif/vc).
+package extension
+
+// RFC 7301 3.2: the selected protocol is one both sides listed, the first in the selecting side's
+// (supportedProtocols) order; no overlap is an error (no_application_protocol), never a silent
+// out-of-policy value. An endpoint without ALPN configuration, or a peer that did not offer
+// ALPN, negotiates nothing.
+
+//@ func ALPNProtocolSelection
+//@ ensures not-configured: len(supportedProtocols) == 0 || len(peerSupportedProtocols) == 0 ==> result1 == nil && result0 == ""
+//@ ensures in-local: result1 == nil && len(supportedProtocols) > 0 && len(peerSupportedProtocols) > 0 ==> exists(0, len(supportedProtocols), func(i int) bool { return supportedProtocols[i] == result0 })
+//@ ensures in-peer: result1 == nil && len(supportedProtocols) > 0 && len(peerSupportedProtocols) > 0 ==> exists(0, len(peerSupportedProtocols), func(j int) bool { return peerSupportedProtocols[j] == result0 })
+//@ ensures first-in-local: result1 == nil && len(supportedProtocols) > 0 && len(peerSupportedProtocols) > 0 ==> exists(0, len(supportedProtocols), func(i int) bool { return supportedProtocols[i] == result0 &&
+//@    forall(0, i, func(k int) bool { return forall(0, len(peerSupportedProtocols), func(j int) bool { return supportedProtocols[k] != peerSupportedProtocols[j] }) }) })
+//@ ensures error-iff-disjoint: result1 != nil ==> forall(0, len(supportedProtocols), func(i int) bool { return forall(0, len(peerSupportedProtocols), func(j int) bool { return supportedProtocols[i] != peerSupportedProtocols[j] }) })
+//@ ensures error-has-no-value: result1 != nil ==> result0 == ""
+//@ loop #1: scanned: forall(0, idx, func(i int) bool { return forall(0, len(peerSupportedProtocols), func(j int) bool { return supportedProtocols[i] != peerSupportedProtocols[j] }) })
+//@ end
